@@ -188,6 +188,23 @@ def has_duplicates(g) -> bool:
     return hd(g)
 
 
+def _dup_among(nodes) -> bool:
+    import pytato as pt
+    seen = {}
+    for n in nodes:
+        if not isinstance(n, (pt.Array, pt.array.AbstractResultWithNamedArrays)):
+            continue
+        try:
+            h = hash(n)
+        except Exception:  # noqa: BLE001
+            continue
+        for m in seen.get(h, []):
+            if m is not n and m == n:
+                return True
+        seen.setdefault(h, []).append(n)
+    return False
+
+
 def check_mapper(name, rec, g, info) -> tuple[Failure | None, dict]:
     import pytato as pt
     stats = {}
@@ -235,9 +252,13 @@ def check_mapper(name, rec, g, info) -> tuple[Failure | None, dict]:
                        f"{name}|{exc_site(e)}"), stats
     counts = cls._pvf_counts
     stats["invocations"] = cls._pvf_total[0]
-    if dup and rec["needs_dedup"]:
+    from pvf.props.c05 import has_duplicates as _hd
+    dup_top = dup and _dup_among(list(nodes_top.values()))
+    if dup_top and rec["needs_dedup"] \
+            and rec["cls"].__name__ != "DeadCodeEliminator":
         # err_on_collision is on by default: the collision between the two
-        # structurally equal nodes must have been reported
+        # structurally equal nodes (of one namespace; the dead-code
+        # eliminator does not visit dead operands) must have been reported
         return Failure("collision-hidden", f"{name}: graph contains "
                        "structurally equal distinct nodes but no collision "
                        "was reported", name), stats
